@@ -230,7 +230,10 @@ pub fn verdict(plan: &Plan, tier: &str, seed: u64, total: &Shard, failed: usize,
     );
     let mut keys: Vec<&String> = total.counters.keys().collect();
     keys.sort();
-    let line: Vec<String> = keys.iter().map(|k| format!("{}={}", k, total.counters[*k])).collect();
+    let mut line: Vec<String> = keys.iter().map(|k| format!("{}={}", k, total.counters[*k])).collect();
+    for (k, v) in total.sets.iter() {
+        line.push(format!("distinct_{}={}", k, v.len()));
+    }
     println!("  observed: {}", line.join(" "));
     for n in total.notes.iter().take(8) {
         println!("  note: {}", n);
